@@ -105,16 +105,20 @@ def generate(unitdir, variant):
 
 
 def build(unitdir, variant, bmode, opt="-O2"):
-    """bmode: 'noorc' (-DDISABLE_ORC) or 'orc'.  Returns (exe or None, message)."""
+    """bmode: 'noorc' (-DDISABLE_ORC) or 'orc'; opt: an optimisation flag, optionally prefixed 'clang:'.
+    Returns (exe or None, message)."""
     libd = vlib.build_lib("plain")
     vd = os.path.join(unitdir, variant)
-    tag = "%s%s" % (bmode, opt)
+    cc = "gcc"
+    if opt.startswith("clang:"):
+        cc, opt = "clang", opt[6:]
+    tag = "%s%s%s" % (bmode, opt, "" if cc == "gcc" else "-clang")
     d = ["-DDISABLE_ORC"] if bmode == "noorc" else []
     init = ["-DV_INIT_FN=v_orc_init"] if "--init-function" in VARIANTS[variant] else []
     objs = []
     if variant != "inline":
         o = os.path.join(vd, "impl_%s.o" % tag)
-        r = run(["gcc", opt] + d + DEFS + inc(vd) + ["-c", os.path.join(vd, "impl.c"), "-o", o])
+        r = run([cc, opt] + d + DEFS + inc(vd) + ["-c", os.path.join(vd, "impl.c"), "-o", o])
         if r.returncode:
             return None, "generated implementation does not compile (%s %s): %s" % (variant, tag, r.stderr.decode()[-1500:])
         objs.append(o)
